@@ -284,3 +284,39 @@ package tmconsensus
 //@   trusted
 //@   ensures result1 == nil ==> bytes(result0) == prevoteMsg(vt.Height, vt.Round, vt.BlockHash)
 //@   modifies nothing
+
+// ---- stored sparse signatures back to full proofs (C05, C10) ----
+// Every proof these functions return was created empty over the given keys and the vote message of its target, and
+// filled only through MergeSparse (per-signature verification): it is verified. A stored entry that does not verify
+// makes toFullProofMap panic (the store is trusted to hold what was verified before it was written): those explicit
+// BUG panics are allowed here and listed as not covered. toFullProofMap is inlined (with its closure argument);
+// its loop invariants are supplied here.
+//@ define fullProofsOK(m, keys) = forall h string :: {rawdom(m)[h]} h in m ==>
+//@     mapvals(m)[h] != nil && ProofInv(mapvals(m)[h]) && pkeys(mapvals(m)[h]) == keys && base(mapvals(m)[h]) <= top() && fresh(ref(mapvals(m)[h]))
+//@ define distinctProofs(m) = forall h1 string, h2 string :: {rawdom(m)[h1], rawdom(m)[h2]} h1 in m && h2 in m && h1 != h2 ==> ref(mapvals(m)[h1]) != ref(mapvals(m)[h2])
+//@ func SparseSignatureCollection.ToFullPrevoteProofMap
+//@   property C05 C10
+//@   option explicit-panics allowed
+//@   requires cmspScheme != nil
+//@   ensures verified: result1 == nil ==> result0 != nil && fresh(result0) && fullProofsOK(result0, pubKeys) && distinctProofs(result0)
+//@   ensures same-targets: result1 == nil ==> (forall h string :: {rawdom(result0)[h]} (h in result0) == (h in c.BlockSignatures))
+//@   ensures message: result1 == nil ==> (forall h string :: {rawdom(result0)[h]} h in result0 ==> pmsg(mapvals(result0)[h]) == prevoteMsg(height, round, h))
+//@   modifies nothing
+//@   loop toFullProofMap.1 invariant out-verified: out != nil && fresh(out) && fullProofsOK(out, pubKeys) && distinctProofs(out)
+//@   loop toFullProofMap.1 invariant out-targets: forall h string :: {rawdom(out)[h]} (h in out) == visited(1)[h]
+//@   loop toFullProofMap.1 invariant visited-targets: forall h string :: {visited(1)[h]} visited(1)[h] ==> (h in c.BlockSignatures)
+//@   loop toFullProofMap.1 invariant out-message: forall h string :: {rawdom(out)[h]} h in out ==> pmsg(mapvals(out)[h]) == prevoteMsg(height, round, h)
+//@   loop toFullProofMap.1 invariant target: vt.Height == height && vt.Round == round
+//@ func SparseSignatureCollection.ToFullPrecommitProofMap
+//@   property C05 C10
+//@   option explicit-panics allowed
+//@   requires cmspScheme != nil
+//@   ensures verified: result1 == nil ==> result0 != nil && fresh(result0) && fullProofsOK(result0, pubKeys) && distinctProofs(result0)
+//@   ensures same-targets: result1 == nil ==> (forall h string :: {rawdom(result0)[h]} (h in result0) == (h in c.BlockSignatures))
+//@   ensures message: result1 == nil ==> (forall h string :: {rawdom(result0)[h]} h in result0 ==> pmsg(mapvals(result0)[h]) == precommitMsg(height, round, h))
+//@   modifies nothing
+//@   loop toFullProofMap.1 invariant out-verified: out != nil && fresh(out) && fullProofsOK(out, pubKeys) && distinctProofs(out)
+//@   loop toFullProofMap.1 invariant out-targets: forall h string :: {rawdom(out)[h]} (h in out) == visited(1)[h]
+//@   loop toFullProofMap.1 invariant visited-targets: forall h string :: {visited(1)[h]} visited(1)[h] ==> (h in c.BlockSignatures)
+//@   loop toFullProofMap.1 invariant out-message: forall h string :: {rawdom(out)[h]} h in out ==> pmsg(mapvals(out)[h]) == precommitMsg(height, round, h)
+//@   loop toFullProofMap.1 invariant target: vt.Height == height && vt.Round == round
